@@ -39,3 +39,43 @@ REG = {
                         "an interrupted or never disk-committed root may be missing after restart but must never serve a wrong value"],
     },
 }
+
+S5_COMPONENTS = {
+    "real": ["core.Core x3 (prime, region, zone) built by core.NewCore: Slice, HeaderChain, BodyDb, StateProcessor, BlockValidator, worker/Miner, TxPool, append queue",
+             "consensus/blake3pow (real hashing at genesis difficulty 3000)", "core/rawdb", "trie", "core/state", "core/vm", "protobuf wire codec for pending headers and blocks",
+             "dom<->sub Append / pending-ETX / manifest calls through an in-process CoreBackend adapter"],
+    "stub": ["libp2p/gossipsub (harness queue; blocks delivered zone, region, prime)", "hierarchical coordinator (harness picks heads on one line and calls GeneratePendingHeader/MakeFullPendingHeader)",
+             "external miner (harness searches nonces from a drawn start)", "node tickers (frozen synctest clock; worker refresh invoked through overlay accessor VerifFillPending)",
+             "storage engine: SimDisk wrapper (location, write-op log, injected batch errors) over memorydb", "RPC/stats/telemetry/freezer not started"],
+}
+S5_RULE = ("one evaluation = one seeded run of a whole node (prime+region+zone cores) inside a synctest bubble: drawn node configuration (address index on/off, miner preference, lockup byte), "
+           "optional fixed prologue (3 prime blocks, 4 Quai->Qi conversions, 13 blocks) and a drawn tape of <=60 ops: mine(order wanted, coinbase ledger, nonce start) / Quai transfer / Quai->Qi conversion / "
+           "Qi spend (honest, duplicate outpoint in tx, duplicate outpoint in two txs, locked, wrong key, overspend) / rewind head k blocks / switch head to any known block / refresh pending block. "
+           "non-trivial = >=3 blocks mined beyond the prologue and >=6 ops; distinct = distinct trace digest (SHA-256 over ops, tx hashes, block hashes and orders). ")
+
+REG.update({
+    "C06": {
+        "level": "exploration",
+        "tests": [{"pkg": "./chainsim", "run": "TestC06", "quick": 480, "thorough": 40000, "chunk": 30}],
+        "rule": S5_RULE + "Oracle after every head change (append or reorg): multiset hash of exactly the ut+cl records in the zone db == header UTXORoot, their count == stored UTXO-set size, state opens at the header's EVM/ETX roots.",
+        "expect_probes": ["nonempty_utxo_set_checked", "reorg"],
+        "components": S5_COMPONENTS,
+        "assumptions": ["single slice (expansion 0); KawPow/AuxPoW regime off", "process-determinism across engines/nodes is decided by C10/C01 cross-node comparisons, not here"],
+    },
+    "C07": {
+        "level": "exploration",
+        "tests": [{"pkg": "./chainsim", "run": "TestC07", "quick": 480, "thorough": 40000, "chunk": 30}],
+        "rule": S5_RULE + "Oracle: every block the node's worker assembled and the harness sealed on the head it was built on is appended by the same node and becomes its head (state executed).",
+        "expect_probes": ["reorg"],
+        "components": S5_COMPONENTS,
+        "assumptions": ["the external miner is honest about its coinbase choice (no Qi coinbase before the controller kick-in)"],
+    },
+    "C10": {
+        "level": "exploration",
+        "tests": [{"pkg": "./chainsim", "run": "TestC10", "quick": 320, "thorough": 30000, "chunk": 20}],
+        "rule": S5_RULE + "Oracle (refinement against a fresh node): after the first two head switches of a run and at its end, the ut / cl / address-index records (index compared as a set per address), canonical number->hash mapping and head pointers of the reorganised node equal those of a second node that was only ever fed the winning branch.",
+        "expect_probes": ["reorg"],
+        "components": S5_COMPONENTS,
+        "assumptions": ["hash-keyed records (trie nodes) that happen to start with a scanned prefix are excluded from the image"],
+    },
+})
